@@ -209,6 +209,23 @@ impl Send {
         counts: &mut Counts,
         task: &mut Option<Waker>,
     ) {
+        #[cfg(feature = "verif-hooks")]
+        let _verif = crate::verif::enter("send.send_reset", || {
+            vec![
+                u32::from(stream.id) as i64,
+                stream.state.is_send_streaming() as i64,
+                stream.state.is_send_closed() as i64,
+                stream.state.is_closed() as i64,
+                stream.is_pending_open as i64,
+                isize::from(stream.send_flow.window_size_raw()) as i64,
+                isize::from(stream.send_flow.available()) as i64,
+                stream.requested_send_capacity as i64,
+                stream.buffered_send_data as i64,
+                stream.state.is_reset() as i64,
+                stream.pending_send.is_empty() as i64,
+                u32::from(reason) as i64,
+            ]
+        });
         let is_reset = stream.state.is_reset();
         let is_closed = stream.state.is_closed();
         let is_empty = stream.pending_send.is_empty();
@@ -288,6 +305,21 @@ impl Send {
             return;
         }
 
+        #[cfg(feature = "verif-hooks")]
+        let _verif = crate::verif::enter("send.schedule_implicit_reset", || {
+            vec![
+                u32::from(stream.id) as i64,
+                stream.state.is_send_streaming() as i64,
+                stream.state.is_send_closed() as i64,
+                stream.state.is_closed() as i64,
+                stream.is_pending_open as i64,
+                isize::from(stream.send_flow.window_size_raw()) as i64,
+                isize::from(stream.send_flow.available()) as i64,
+                stream.requested_send_capacity as i64,
+                stream.buffered_send_data as i64,
+                u32::from(reason) as i64,
+            ]
+        });
         stream.state.set_scheduled_reset(reason);
 
         self.prioritize.reclaim_reserved_capacity(stream, counts);
@@ -522,6 +554,20 @@ impl Send {
         stream: &mut store::Ptr,
         counts: &mut Counts,
     ) {
+        #[cfg(feature = "verif-hooks")]
+        let _verif = crate::verif::enter("send.handle_error", || {
+            vec![
+                u32::from(stream.id) as i64,
+                stream.state.is_send_streaming() as i64,
+                stream.state.is_send_closed() as i64,
+                stream.state.is_closed() as i64,
+                stream.is_pending_open as i64,
+                isize::from(stream.send_flow.window_size_raw()) as i64,
+                isize::from(stream.send_flow.available()) as i64,
+                stream.requested_send_capacity as i64,
+                stream.buffered_send_data as i64,
+            ]
+        });
         // Clear all pending outbound frames
         self.prioritize.clear_queue(buffer, stream);
         self.prioritize.reclaim_all_capacity(stream, counts);
